@@ -55,6 +55,15 @@ func execReason(c ReasonCase) (v ev.Verdict) {
 		return ev.Failf("panic", "first build panics: %s", r.Panic)
 	}
 	for n, op := range c.Ops {
+		if op.Kind == "old-record" {
+			// the record of a target as an older dawn wrote it (function objects without the
+			// "parameters" part): the next build compares environments of two formats
+			live := m.Live()
+			if len(live) > 0 && sim.OldFormatRecord(live[op.T%len(live)]) {
+				v.Classes = append(v.Classes, "record-in-older-format")
+			}
+			continue
+		}
 		if !op.IsBuild() {
 			sim.ApplyEdit(op)
 			continue
@@ -104,6 +113,8 @@ func genReason(t *rapid.T) ReasonCase {
 	for i := 0; i < n; i++ {
 		if rapid.IntRange(0, 2).Draw(t, "isbuild") == 2 {
 			ops = append(ops, projsim.GenBuild(t, false, false, false))
+		} else if rapid.IntRange(0, 5).Draw(t, "oldrec") == 5 {
+			ops = append(ops, projsim.Op{Kind: "old-record", T: rapid.IntRange(0, 11).Draw(t, "ort")})
 		} else {
 			ops = append(ops, projsim.GenEdit(t, envEdits))
 		}
